@@ -45,7 +45,21 @@ def gen_pred(rng, actors, computed):
     return ("bin", "or", ("bin", "gt", s, g.num(rng.range(2, 8))), ("bin", "eq", g.var("mood"), ("str", "red")))
 
 
+def gen_chained_config(rng):
+    """an auditor whose activation condition reads a variable that an earlier, always-active member computes from one
+    actor's signal, while its predicate reads another actor's signal: the two arrive in different rounds"""
+    members = [{"name": "m0", "cond": g.TRUE, "assigns": [{"target": "x0", "mode": "single", "n": 0,
+                "expr": rng.pick([g.var("s", "a"), ("bin", "add", g.var("s", "a"), g.num(rng.range(0, 2)))])}], "expect": None, "watches": []},
+               {"name": "m1", "cond": ("bin", "gt", g.var("x0"), g.num(rng.range(1, 6))), "assigns": [],
+                "expect": (rng.pick(MODALITIES), ("bin", rng.pick(["gt", "lt", "ge"]), g.var("s", "b"), g.num(rng.range(0, 8)))), "watches": []}]
+    if rng.chance(1, 3):
+        members.append({"name": "m2", "cond": gen_cond(rng, ["a", "b"], ["x0"]), "assigns": [], "expect": (rng.pick(MODALITIES), gen_pred(rng, ["a", "b"], ["x0"])), "watches": []})
+    return {"signals": [("s", "scalar")], "actors": ["a", "b"], "members": members}
+
+
 def gen_config(rng):
+    if rng.chance(1, 6):
+        return gen_chained_config(rng)
     actors = ["a"] if rng.chance(1, 2) else ["a", "b"]
     nm = rng.range(1, 4)
     members, computed = [], []
@@ -202,6 +216,57 @@ def run(tier, seed):
                     if stale:
                         ofail.append({"config": text, "events": g.events_json(evs), "auditor": m["name"], "markers": ",".join(mk),
                                       "oracle": "FAIL judged at %s although no sample of %s arrived in that round" % (stale[:3], pdeps), "shape": "stale-observation", "open_at_end": False})
+            # O'': a period whose condition reads a variable computed by an earlier, always-active member from signals only
+            # ends in the FIRST round that assigns the variable a value falsifying the condition (the assignment wakes the
+            # auditor in that very round): no such assignment lies strictly between two reports of one period
+            for m in cfg["members"]:
+                c = m["cond"]
+                if not (m["expect"] and c[0] == "bin" and c[1] in ("gt", "le") and c[2][0] == "var" and c[2][1] == "" and c[3][0] == "num"):
+                    continue
+                src_m = next((gm for gm in cfg["members"] if gm is not m and any(a["target"] == c[2][2] for a in gm["assigns"])), None)
+                if src_m is None or src_m["cond"] != g.TRUE or cfg["members"].index(src_m) > cfg["members"].index(m):
+                    continue
+                e = next(a["expr"] for a in src_m["assigns"] if a["target"] == c[2][2])
+                ed = g.deps(e)
+                if not ed or not all(a for a, _ in ed):
+                    continue
+
+                def ev_expr(x, smp):
+                    if x[0] == "num":
+                        return x[1]
+                    if x[0] == "var":
+                        return smp[(x[1], x[2])]
+                    if x[0] == "bin" and x[1] in ("add", "sub", "mul"):
+                        a_, b_ = ev_expr(x[2], smp), ev_expr(x[3], smp)
+                        return a_ + b_ if x[1] == "add" else a_ - b_ if x[1] == "sub" else a_ * b_
+                    raise KeyError(x)
+                falsifying = []
+                try:
+                    for ev_ in evs:
+                        if ev_[0] == "sig":
+                            smp = {(va, vs): vv for (_, va, vs, vv) in ev_[2]}
+                            if all(d in smp for d in ed):
+                                v = ev_expr(e, smp)
+                                holds = v > c[3][1] if c[1] == "gt" else v <= c[3][1]
+                                if not holds:
+                                    falsifying.append(float(ev_[1]))
+                except (KeyError, TypeError):
+                    continue
+                rep.count("chained-condition periods judged")
+                cur, late = None, []
+                for it in im["stream"]:
+                    if it[0] == "start" and it[1] == m["name"]:
+                        cur = []
+                    elif it[0] == "rep" and it[2] == m["name"] and cur is not None:
+                        cur.append(float(it[1]))
+                    elif it[0] == "stop" and it[1] == m["name"] and cur is not None:
+                        if len(cur) >= 2:
+                            late += [f for f in falsifying if cur[0] + 1e-6 < f < cur[-1] - 1e-6]
+                        cur = None
+                if late:
+                    ofail.append({"config": text, "events": g.events_json(evs), "auditor": m["name"], "markers": ",".join(markers(im["stream"], m["name"])),
+                                  "oracle": "FAIL the period went on after %s was assigned a value falsifying the activation condition (at %s)" % (c[2][2], late[:3]),
+                                  "shape": "chained-condition", "open_at_end": False})
         rep.sample({"config": text, "events": len(evs), "markers": {m["name"]: ",".join(markers(im["stream"], m["name"])) for m in cfg["members"]}}, cap=3)
     rep.obligation("K-C02: real audit loop vs model on the start/report/stop stream (%d histories)" % len(cases), "K", not kdis, json.dumps(kdis[:2])[:1800])
     rep.obligation("O-C02: periods bracketed, explainable from a fresh start, closed at the end (real stream)", "O", not ofail, json.dumps(ofail[:2])[:1800])
